@@ -33,6 +33,13 @@ WellFormed(T) ==
                                                  /\ ~IsAncestor(T, Resolve(T, i), i))     \* not upward to an ancestor (infinite when dereferenced)
                           /\ (T[i].k # "link" => T[i].t = 0)
 
+(* Dereferencing is only meaningful when following links never comes back: the graph "directory -> child, link -> target" is acyclic. *)
+(* (Two directories linking to each other sideways are a legal tree, stored link by link; followed, they unfold without end.)        *)
+Edge(T, i, j) == T[j].p = i \/ (T[i].k = "link" /\ T[i].t = j)
+RECURSIVE ReachFrom(_, _, _)
+ReachFrom(T, S, n) == IF n = 0 THEN S ELSE ReachFrom(T, S \cup { j \in 1..Len(T) : \E i \in S : Edge(T, i, j) }, n - 1)
+Acyclic(T) == \A i \in 1..Len(T) : i \notin ReachFrom(T, { j \in 1..Len(T) : Edge(T, i, j) }, Len(T))
+
 (* a member: path = sequence of node indices from the root, what = kind, src = node whose content / target it carries *)
 M(path, what, src) == [path |-> path, what |-> what, src |-> src]
 
